@@ -262,9 +262,10 @@ func (p *PanicInfo) Site() string {
 		if j := strings.Index(file, " +0x"); j >= 0 {
 			file = file[:j]
 		}
-		for _, root := range []string{"/repo/", "c4e-chain/"} {
+		// make the path relative to the repository root wherever the tree is checked out
+		for _, root := range []string{"/x/cfe", "/app/"} {
 			if j := strings.LastIndex(file, root); j >= 0 {
-				file = file[j+len(root):]
+				file = file[j+1:]
 				break
 			}
 		}
